@@ -269,11 +269,6 @@ theorem Sinh.hasDerivAt (p : Sinh.Params ℝ) (x : ℝ) :
   rw [show (x - p.nu) * p.scale * ((x - p.nu) * p.scale) = ((x - p.nu) * p.scale) ^ 2 by ring]
   ring
 
-theorem Sinh.scale_pos (p : Sinh.Params ℝ) (hp : Sinh.admissible p) : 0 < p.scale := by
-  unfold Sinh.admissible at hp
-  have : (0 : ℝ) < 1e-10 := by norm_num
-  linarith
-
 theorem Sinh.jac_pos (p : Sinh.Params ℝ) (x : ℝ) (hp : Sinh.admissible p) : 0 < Sinh.jac p x := by
   have hs := Sinh.scale_pos p hp
   simp only [Sinh.jac, transc_sqrt]
@@ -309,9 +304,6 @@ theorem Manly.hasDerivAt (p : Manly.Params ℝ) (x : ℝ) :
     simp only [Bool.false_eq_true, if_false]
     exact hu
 
-theorem Manly.xmax_pos (p : Manly.Params ℝ) (hp : Manly.admissible p) : 0 < p.xmax :=
-  lt_of_lt_of_le eps_pos hp.2.2
-
 theorem Manly.jac_pos (p : Manly.Params ℝ) (x : ℝ) (hp : Manly.admissible p) : 0 < Manly.jac p x := by
   have hxm := Manly.xmax_pos p hp
   unfold Manly.jac
@@ -345,19 +337,6 @@ theorem Manly.state_jacobian_set (s : Manly.State ℝ) (x xm : ℝ) (h : s.xmax 
   | mk l xm' => cases h; rfl
 
 /-! ### LogSinh — `(w + log((1 - exp(-2w))/2))/b`, `w = a + b x/xmax`; Jacobian `(1/xmax) / tanh(w)` -/
-
-theorem LogSinh.xmax_pos (p : LogSinh.Params ℝ) (hp : LogSinh.admissible p) : 0 < p.xmax :=
-  lt_of_lt_of_le eps_pos hp.2.2.2.2
-
-/-- inside the guard `x/xmax > -a/b + EPS` the argument of `sinh` is positive -/
-theorem LogSinh.w_pos (p : LogSinh.Params ℝ) (x : ℝ) (hx : LogSinh.dom p x) :
-    0 < LogSinh.a p + LogSinh.b p * (x / p.xmax) := by
-  have hb : 0 < LogSinh.b p := Real.exp_pos _
-  unfold LogSinh.dom LogSinh.inDom at hx
-  rw [decide_eq_true_iff] at hx
-  have h1 : -LogSinh.a p / LogSinh.b p < x / p.xmax := by linarith [eps_pos]
-  rw [div_lt_iff₀ hb] at h1
-  linarith
 
 theorem LogSinh.hasDerivAt (p : LogSinh.Params ℝ) (x : ℝ) (hp : LogSinh.admissible p) (hx : LogSinh.dom p x) :
     HasDerivAt (fun t => LogSinh.fwd p t) (LogSinh.jac p x) x := by
@@ -410,17 +389,6 @@ theorem LogSinh.state_jacobian_set (s : LogSinh.State ℝ) (x xm : ℝ) (h : s.x
 
 /-! ### BoxCox2sym — odd extension `sign(x) (BC(|x|) - BC(0))`, Jacobian `BC'(|x|)`: the derivative on each
 half-line, and — because both one-sided derivatives at 0 equal `BC'(0)` — also at `x = 0` when `nu > 0` -/
-
-theorem BoxCox2sym.fwd_of_pos (p : BoxCox2sym.Params ℝ) {t : ℝ} (ht : 0 < t) :
-    BoxCox2sym.fwd p t = BoxCox2.fwd (BoxCox2sym.toBC p) t - BoxCox2sym.y0 p := by
-  simp only [BoxCox2sym.fwd, C01.sign_pos ht, absv_eq, abs_of_pos ht, one_mul]
-
-theorem BoxCox2sym.fwd_of_neg (p : BoxCox2sym.Params ℝ) {t : ℝ} (ht : t < 0) :
-    BoxCox2sym.fwd p t = -(BoxCox2.fwd (BoxCox2sym.toBC p) (-t) - BoxCox2sym.y0 p) := by
-  simp only [BoxCox2sym.fwd, C01.sign_neg ht, absv_eq, abs_of_neg ht, neg_mul, one_mul]
-
-theorem BoxCox2sym.fwd_zero (p : BoxCox2sym.Params ℝ) : BoxCox2sym.fwd p 0 = 0 := by
-  simp only [BoxCox2sym.fwd, C01.sign_zero, zero_mul]
 
 theorem BoxCox2sym.hasDerivAt_of_pos (p : BoxCox2sym.Params ℝ) (x : ℝ) (hx : 0 < x) (hd : 0 < x + p.nu) :
     HasDerivAt (fun t => BoxCox2sym.fwd p t) (BoxCox2sym.jac p x) x := by
@@ -567,11 +535,6 @@ theorem BoxCox2sym.state_jacobian_eq (s : BoxCox2sym.State ℝ) (x : ℝ) :
 The derivative holds at every `x` with `w ≠ EPS` (the interior of the two branches); at `w = EPS` the two formulas
 meet with a mismatch below `3 EPS²` (zero for `lam = 1`), so monotonicity is exact on either side and holds up to
 that amount across the junction. -/
-
-theorem YeoJohnson.scale_pos (p : YeoJohnson.Params ℝ) (hp : YeoJohnson.admissible p) : 0 < p.scale := by
-  have h := hp.1
-  have : (0 : ℝ) < 1e-5 := by norm_num
-  linarith
 
 theorem YeoJohnson.hasDerivAt (p : YeoJohnson.Params ℝ) (x : ℝ) (hw : p.nu + x * p.scale ≠ eps) :
     HasDerivAt (fun t => YeoJohnson.fwd p t) (YeoJohnson.jac p x) x := by
